@@ -306,6 +306,7 @@ class CFG(object):
         self.succ = {}
         self.pred = {}
         self.stmt_node = {}      # ast stmt -> node id (simple stmt node, or test/iter node of compound)
+        self.branch = {}         # test node id -> {True: first node of the true branch, False: ...}
         self.entry = self._new('entry')
         self.exit = self._new('exit')
         self.rexit = self._new('rexit')
@@ -340,10 +341,16 @@ class CFG(object):
 
     def _assume_chain(self, preds, expr, pol, owner):
         cur = set(preds)
+        first = None
         for (e, p) in split_assumes(expr, pol):
             n = self._new('assume', e, p, owner)
+            if first is None:
+                first = n
             self._link(cur, n)
             cur = {n}
+        # remember where each branch of a test starts: branch[test node] = {True: node, False: node}
+        if len(preds) == 1:
+            self.branch.setdefault(next(iter(preds)), {})[pol] = first
         return cur
 
     def _block(self, stmts, preds):
